@@ -219,7 +219,7 @@ META = {
                    "and leaves x and the length alone. The statements about the spline itself (sum of squared "
                    "deviations <= s, identity for s = 0) follow from the stub's contract "
                    "sum((g(x_i)-y_i)^2) <= s, i.e. they are assumptions about FITPACK, made explicit.",
-    "bounds": {"quick": "series of 5..6 points; to_function after [none|smooth|recreate|trend] + each of the 14 domain operations (5 points)", "thorough": "series of 5..8 points; same histories"},
+    "bounds": {"quick": "series of 5..6 points; to_function after [none|smooth|recreate|trend] + each of the 14 domain operations (5 points), and each domain operation + [trend; for append_one_sample also smooth, noise] + to_function", "thorough": "series of 5..8 points; same histories"},
     "outside": ["FITPACK's numerics (convergence, 0.1% tolerance, identity on affine data): contract stub, assumption",
                 "float rounding"],
     "assumptions": ["x strictly increasing", "FITPACK contract: the returned spline g satisfies sum((g(x_i)-y_i)^2) <= s; "
